@@ -9,7 +9,7 @@ def frag(name, anchor, occurrence=0, rewrites=None, **kw):
     return d
 
 
-PAIR = [dict(lit='std::make_pair( nullptr, 0u )', to='std::pair<void*, size_t>( nullptr, 0 )', count=2, why='make_pair + converting pair constructor (unsupported); same value'),
+PAIR = [dict(lit='std::make_pair( nullptr, 0u )', to='std::pair<void*, size_t>( nullptr, 0 )', count='1+', why='make_pair + converting pair constructor (unsupported); same value'),
         dict(lit='std::make_pair( reinterpret_cast<void*>( buf + sizeof( size_t )), size )', to='std::pair<void*, size_t>( reinterpret_cast<void*>( buf + sizeof( size_t )), size )', count=1, why='same')]
 stage = [
     # typed ring
